@@ -1,6 +1,376 @@
-(* C12 — stub: model not yet built (the property is listed under not_applicable until it is). *)
-From Coq Require Import List ZArith Bool.
+(* C12 -- model of zapcore.BufferedWriteSyncer (zapcore/buffered_write_syncer.go) over a
+   model of bufio.Writer (bufio.go: Write, Flush, Available, Buffered, NewWriterSize),
+   following the Go text.  The sequential part (this file): Write / Sync / tick / Stop as
+   one atomic step each (every one of them runs under s.mu), with the lazily started
+   flush goroutine reduced to the flag [loop].  The interleaving model of the lock, the
+   stop/done channels and the flush loop is in C12/Conc.v.
+   No proofs in this file. *)
+From Coq Require Import List ZArith Bool Arith Lia.
+From Coq.Strings Require Import Byte.
 Import ListNotations.
 From Zap Require Import Base.Wire.
-Definition model (i : sx) : sx := SL [].
-Definition spec (i o : sx) : bool := false.
+
+Definition is_nil {A} (l : list A) : bool := match l with [] => true | _ => false end.
+
+(* ------------------------------------------------------------------ *)
+(* the wrapped WriteSyncer: a script of outcomes, one per call (Write or Sync), and the
+   events it records.  An outcome says how many bytes the sink takes (None = all of
+   them) and whether it returns an error.  When the script is exhausted the sink is
+   reliable. *)
+Record outcome := { o_short : option nat; o_err : bool }.
+Definition out_ok : outcome := {| o_short := None; o_err := false |}.
+Inductive ev := EW (p : bytes) (n : nat) (* Write(p) returned n: the sink holds p[:n] *) | ES (* Sync() *).
+Definition sk := list outcome.
+Definition next_out (k : sk) : outcome := match k with [] => out_ok | o :: _ => o end.
+
+(* error classes: 0 nil, 1 the sink's own write error, 2 io.ErrShortWrite, +4 the sink's Sync error *)
+Definition sink_write (k : sk) (p : bytes) : nat * nat * list ev * sk :=
+  let o := next_out k in
+  let n := match o_short o with None => length p | Some m => Nat.min m (length p) end in
+  (n, if o_err o then 1 else 0, [EW p n], tl k).
+Definition sink_sync (k : sk) : nat * list ev * sk :=
+  (if o_err (next_out k) then 4 else 0, [ES], tl k).
+
+(* ------------------------------------------------------------------ *)
+(* bufio.Writer: buf[0:n] is [buf], len(b.buf) is [size], b.err is [berr] (sticky) *)
+Record bufio := { size : nat; buf : bytes; berr : nat }.
+Definition avail (b : bufio) : nat := size b - length (buf b).      (* Available() *)
+Definition set_buf (b : bufio) (x : bytes) (e : nat) : bufio := {| size := size b; buf := x; berr := e |}.
+
+(* func (b *Writer) Flush() error *)
+Definition bflush (b : bufio) (k : sk) : nat * bufio * list ev * sk :=
+  if negb (berr b =? 0) then (berr b, b, [], k)
+  else if is_nil (buf b) then (0, b, [], k)
+  else
+    let '(n, e, es, k1) := sink_write k (buf b) in
+    let e1 := if (n <? length (buf b)) && (e =? 0) then 2 else e in     (* io.ErrShortWrite *)
+    if e1 =? 0 then (0, set_buf b [] 0, es, k1)
+    else (e1, set_buf b (skipn n (buf b)) e1, es, k1).                  (* copy down; b.n -= n; b.err = err *)
+
+(* func (b *Writer) Write(p []byte) (nn int, err error)
+     for len(p) > b.Available() && b.err == nil {
+         if b.Buffered() == 0 { n, b.err = b.wr.Write(p) }            -- large write, empty buffer
+         else { n = copy(b.buf[b.n:], p); b.n += n; b.Flush() }        -- fill, flush, continue: SPLITS p
+         nn += n; p = p[n:] }
+     if b.err != nil { return nn, b.err }
+     n := copy(b.buf[b.n:], p); b.n += n; nn += n; return nn, nil
+   Every iteration consumes a byte or sets b.err, except one fill of a full buffer and a
+   sink that returns (0, nil) (outside io.Writer's contract; the real loop would spin):
+   [wfuel p] iterations suffice otherwise (lemma bwrite_fuel_* in Proofs.v). *)
+Fixpoint bwrite (fuel : nat) (b : bufio) (k : sk) (p : bytes) : nat * nat * bufio * list ev * sk :=
+  match fuel with
+  | 0 => (0, berr b, b, [], k)
+  | S f =>
+      if (avail b <? length p) && (berr b =? 0) then
+        if is_nil (buf b) then
+          let '(n, e, es, k1) := sink_write k p in
+          let '(nn, e2, b2, es2, k2) := bwrite f (set_buf b (buf b) e) k1 (skipn n p) in
+          (n + nn, e2, b2, es ++ es2, k2)
+        else
+          let n := avail b in
+          let '(_, b1, es, k1) := bflush (set_buf b (buf b ++ firstn n p) (berr b)) k in
+          let '(nn, e2, b2, es2, k2) := bwrite f b1 k1 (skipn n p) in
+          (n + nn, e2, b2, es ++ es2, k2)
+      else if negb (berr b =? 0) then (0, berr b, b, [], k)
+      else (length p, 0, set_buf b (buf b ++ p) 0, [], k)
+  end.
+Definition wfuel (p : bytes) : nat := S (S (length p + length p)).
+
+(* ------------------------------------------------------------------ *)
+(* BufferedWriteSyncer *)
+Inductive op := Write (bs : bytes) | Sync | Tick | Stop.
+Inductive res := RW (n err : nat) | RS (err : nat) | RT (delivered : bool) | RStop (err : nat).
+
+(* cfg = the Size field; [loop] = the flushLoop goroutine is running *)
+Record st := { cfg : Z; inited : bool; stopped : bool; loop : bool; w : bufio; k : sk }.
+Definition upd (s : st) (b : bufio) (k1 : sk) : st :=
+  {| cfg := cfg s; inited := inited s; stopped := stopped s; loop := loop s; w := b; k := k1 |}.
+
+(* initialize(): size 0 -> _defaultBufferSize; bufio.NewWriterSize: size <= 0 -> 4096 *)
+Definition eff_size (c : Z) : nat :=
+  if (c =? 0)%Z then 256 * 1024 else if (c <? 0)%Z then 4096 else Z.to_nat c.
+Definition initialize (s : st) : st :=
+  {| cfg := cfg s; inited := true; stopped := stopped s; loop := true;
+     w := {| size := eff_size (cfg s); buf := []; berr := 0 |}; k := k s |}.
+
+(* Sync(): if s.initialized { err = s.writer.Flush() }; return multierr.Append(err, s.WS.Sync()) *)
+Definition bws_sync (s : st) : nat * st * list ev :=
+  let '(e1, b1, es1, k1) := if inited s then bflush (w s) (k s) else (0, w s, [], k s) in
+  let '(e2, es2, k2) := sink_sync k1 in
+  (e1 + e2, upd s b1 k2, es1 ++ es2).
+
+(* [fx = true] is the repaired code (fix: commit in the zap worktree), [fx = false] the original:
+   originally a Write after Stop was buffered although nothing would ever flush it (the flush
+   loop is gone and a repeated Stop returns at once). *)
+Definition bws_write (fx : bool) (s : st) (bs : bytes) : st * res * list ev :=
+  let s0 := if inited s then s else initialize s in
+  let pre := (avail (w s0) <? length bs) && negb (is_nil (buf (w s0))) in
+  let '(e0, b1, es1, k1) := if pre then bflush (w s0) (k s0) else (0, w s0, [], k s0) in
+  if negb (e0 =? 0) then (upd s0 b1 k1, RW 0 e0, es1)
+  else
+    let '(n, e, b2, es2, k2) := bwrite (wfuel bs) b1 k1 bs in
+    if fx && stopped s0 && (e =? 0) then
+      let '(e3, b3, es3, k3) := bflush b2 k2 in
+      (upd s0 b3 k3, RW n e3, es1 ++ es2 ++ es3)
+    else (upd s0 b2 k2, RW n e, es1 ++ es2).
+
+Definition bws_stop (fx : bool) (s : st) : st * res * list ev :=
+  if negb (inited s) then (s, RStop 0, [])
+  else if stopped s then
+    (if fx then let '(e2, es2, k2) := sink_sync (k s) in (upd s (w s) k2, RStop e2, es2)
+     else (s, RStop 0, []))
+  else
+    (* stopped = true; ticker.Stop(); close(stop); <-done; return s.Sync() *)
+    let s1 := {| cfg := cfg s; inited := true; stopped := true; loop := false; w := w s; k := k s |} in
+    let '(e, s2, es) := bws_sync s1 in (s2, RStop e, es).
+
+Definition step_gen (fx : bool) (s : st) (o : op) : st * res * list ev :=
+  match o with
+  | Write bs => bws_write fx s bs
+  | Sync => let '(e, s1, es) := bws_sync s in (s1, RS e, es)
+  | Tick => if loop s then let '(_, s1, es) := bws_sync s in (s1, RT true, es)   (* _ = s.Sync() *)
+            else (s, RT false, [])
+  | Stop => bws_stop fx s
+  end.
+Definition step := step_gen true.
+Definition step_orig := step_gen false.
+
+Fixpoint run_gen (fx : bool) (s : st) (ops : list op) : st * list (res * list ev) :=
+  match ops with
+  | [] => (s, [])
+  | o :: r => let '(s1, rs, es) := step_gen fx s o in
+              let '(s2, tr) := run_gen fx s1 r in (s2, (rs, es) :: tr)
+  end.
+Definition run := run_gen true.
+Definition init (c : Z) (outs : sk) : st :=
+  {| cfg := c; inited := false; stopped := false; loop := false;
+     w := {| size := 0; buf := []; berr := 0 |}; k := outs |}.
+
+(* bufio.Writer.Write WITHOUT zap's flush-before-write rule (for the _refuted lemma) *)
+Definition naive_write (s : st) (bs : bytes) : st * res * list ev :=
+  let s0 := if inited s then s else initialize s in
+  let '(n, e, b2, es2, k2) := bwrite (wfuel bs) (w s0) (k s0) bs in (upd s0 b2 k2, RW n e, es2).
+
+(* ------------------------------------------------------------------ *)
+(* specification, independent of the model: an executable oracle over
+   (operation, result, sink events during the operation) triples.
+
+   Reliable sink.  [q] = accepted writes not yet delivered (in order), [dirty] = the
+   sink was written since its last Sync, [ph] = lifecycle by the documentation: the flush
+   loop runs from the first Write until the first Stop after it. *)
+Inductive phase := Fresh | Running | Stopped.
+Record ost := { q : list bytes; dirty : bool; ph : phase }.
+
+(* remove from the front of q a group of WHOLE writes whose concatenation is x *)
+Fixpoint strip (q : list bytes) (x : bytes) : option (list bytes) :=
+  if is_nil x then Some q
+  else match q with
+       | [] => None
+       | b :: r => if (length b <=? length x) && bytes_eqb b (firstn (length b) x)
+                   then strip r (skipn (length b) x) else None
+       end.
+Fixpoint deliver (q : list bytes) (d : bool) (es : list ev) : option (list bytes * bool) :=
+  match es with
+  | [] => Some (q, d)
+  | ES :: r => deliver q false r
+  | EW p n :: r => if n =? length p then
+                     match strip q p with Some q1 => deliver q1 true r | None => None end
+                   else None
+  end.
+Definition all_empty (q : list bytes) : bool := forallb (@is_nil byte) q.
+Definition qlen (q : list bytes) : nat := length (concat q).
+(* after Sync, a processed tick, Stop: nothing held back, sink synced after its last write *)
+Definition flushed (o : option (list bytes * bool)) (p : phase) : option ost :=
+  match o with
+  | Some (q1, d1) => if all_empty q1 && negb d1 then Some {| q := q1; dirty := false; ph := p |} else None
+  | None => None
+  end.
+Definition ostep (sz : nat) (s : ost) (o : op) (r : res) (es : list ev) : option ost :=
+  match o, r with
+  | Write bs, RW n e =>
+      if (n =? length bs) && (e =? 0) then
+        match deliver (q s ++ [bs]) (dirty s) es with
+        | Some (q1, d1) =>
+            if qlen q1 <=? sz
+            then Some {| q := q1; dirty := d1; ph := match ph s with Fresh => Running | p => p end |}
+            else None
+        | None => None
+        end
+      else None
+  | Sync, RS e => if e =? 0 then flushed (deliver (q s) (dirty s) es) (ph s) else None
+  | Tick, RT d =>
+      match ph s with
+      | Running => if d then flushed (deliver (q s) (dirty s) es) Running else None
+      | _ => if negb d && is_nil es then Some s else None
+      end
+  | Stop, RStop e =>
+      if e =? 0 then flushed (deliver (q s) (dirty s) es) (match ph s with Running => Stopped | p => p end)
+      else None
+  | _, _ => None
+  end.
+Fixpoint orun (sz : nat) (s : ost) (ops : list op) (tr : list (res * list ev)) : option ost :=
+  match ops, tr with
+  | [], [] => Some s
+  | o :: ops1, (r, es) :: tr1 =>
+      match ostep sz s o r es with Some s1 => orun sz s1 ops1 tr1 | None => None end
+  | _, _ => None
+  end.
+Definition oinit : ost := {| q := []; dirty := false; ph := Fresh |}.
+Definition is_running (p : phase) : bool := match p with Running => true | _ => false end.
+Definition strong_ok (c : Z) (ops : list op) (tr : list (res * list ev)) (alive : bool) : bool :=
+  match orun (eff_size c) oinit ops tr with
+  | Some s => Bool.eqb alive (is_running (ph s))
+  | None => false
+  end.
+
+(* Unreliable sink (any outcome script): the bytes the sink holds are, in order and without
+   duplication, the bytes the Writes reported as consumed; the rest is still pending.
+   [pend] = consumed bytes not yet in the sink. *)
+Fixpoint is_prefix (a b : bytes) : bool :=
+  match a, b with
+  | [], _ => true
+  | x :: a1, y :: b1 => Byte.eqb x y && is_prefix a1 b1
+  | _, [] => false
+  end.
+Fixpoint wdeliver (pend : bytes) (es : list ev) : option bytes :=
+  match es with
+  | [] => Some pend
+  | ES :: r => wdeliver pend r
+  | EW p n :: r => if (n <=? length p) && is_prefix (firstn n p) pend
+                   then wdeliver (skipn n pend) r else None
+  end.
+Definition wstep (pend : bytes) (o : op) (r : res) (es : list ev) : option bytes :=
+  match o, r with
+  | Write bs, RW n _ => if n <=? length bs then wdeliver (pend ++ firstn n bs) es else None
+  | Sync, RS _ | Tick, RT _ | Stop, RStop _ => wdeliver pend es
+  | _, _ => None
+  end.
+Fixpoint wrun (pend : bytes) (ops : list op) (tr : list (res * list ev)) : bool :=
+  match ops, tr with
+  | [], [] => true
+  | o :: ops1, (r, es) :: tr1 =>
+      match wstep pend o r es with Some p1 => wrun p1 ops1 tr1 | None => false end
+  | _, _ => false
+  end.
+
+(* ------------------------------------------------------------------ *)
+(* wire.  input = (size (op ...) (outcome ...));  op = (0 #bytes) | (1) | (2) | (3);
+   outcome = (short err), short = -1 for "takes everything".
+   observation = (((res (ev ...)) ...) alive); res = (0 n e) | (1 e) | (2 d) | (3 e);
+   ev = (0 #p n) | (1). *)
+Definition dec_op (s : sx) : op :=
+  match sx_z (sx_nth s 0) with
+  | 0%Z => Write (sx_b (sx_nth s 1))
+  | 1%Z => Sync
+  | 2%Z => Tick
+  | _ => Stop
+  end.
+Definition dec_out (s : sx) : outcome :=
+  let z := sx_z (sx_nth s 0) in
+  {| o_short := if (z <? 0)%Z then None else Some (Z.to_nat z); o_err := sx_bool (sx_nth s 1) |}.
+Definition dec_case (i : sx) : Z * list op * sk :=
+  (sx_z (sx_nth i 0), map dec_op (sx_l (sx_nth i 1)), map dec_out (sx_l (sx_nth i 2))).
+
+Definition enc_ev (e : ev) : sx :=
+  match e with EW p n => SL [SZ 0; SB p; of_nat n] | ES => SL [SZ 1] end.
+Definition enc_res (r : res) : sx :=
+  match r with
+  | RW n e => SL [SZ 0; of_nat n; of_nat e]
+  | RS e => SL [SZ 1; of_nat e]
+  | RT d => SL [SZ 2; of_bool d]
+  | RStop e => SL [SZ 3; of_nat e]
+  end.
+Definition enc_tr (tr : list (res * list ev)) : sx :=
+  SL (map (fun re => SL [enc_res (fst re); SL (map enc_ev (snd re))]) tr).
+
+Definition dec_ev (s : sx) : ev :=
+  match sx_z (sx_nth s 0) with
+  | 0%Z => EW (sx_b (sx_nth s 1)) (sx_n (sx_nth s 2))
+  | _ => ES
+  end.
+Definition dec_res (s : sx) : res :=
+  match sx_z (sx_nth s 0) with
+  | 0%Z => RW (sx_n (sx_nth s 1)) (sx_n (sx_nth s 2))
+  | 1%Z => RS (sx_n (sx_nth s 1))
+  | 2%Z => RT (sx_bool (sx_nth s 1))
+  | _ => RStop (sx_n (sx_nth s 1))
+  end.
+Definition dec_tr (s : sx) : list (res * list ev) :=
+  map (fun x => (dec_res (sx_nth x 0), map dec_ev (sx_l (sx_nth x 1)))) (sx_l s).
+
+(* mode 1: the bufio model on its own (bufio.NewWriterSize(sink, size); Write = Write,
+   every other op = Flush), validated against the real bufio.Writer by the harness *)
+Definition bsize (c : Z) : nat := if (c <=? 0)%Z then 4096 else Z.to_nat c.
+Definition bstep (bk : bufio * sk) (o : op) : bufio * sk * res * list ev :=
+  match o with
+  | Write bs => let '(n, e, b2, es, k2) := bwrite (wfuel bs) (fst bk) (snd bk) bs in (b2, k2, RW n e, es)
+  | _ => let '(e, b2, es, k2) := bflush (fst bk) (snd bk) in (b2, k2, RS e, es)
+  end.
+Fixpoint brun (bk : bufio * sk) (ops : list op) : list (res * list ev) :=
+  match ops with
+  | [] => []
+  | o :: r => let '(b2, k2, rs, es) := bstep bk o in (rs, es) :: brun (b2, k2) r
+  end.
+Definition bops (ops : list op) : list op := map (fun o => match o with Write bs => Write bs | _ => Sync end) ops.
+Definition mode_of (i : sx) : bool := sx_bool (sx_nth i 3).
+
+Definition model (i : sx) : sx :=
+  let '(c, ops, outs) := dec_case i in
+  if mode_of i then
+    SL [enc_tr (brun ({| size := bsize c; buf := []; berr := 0 |}, outs) (bops ops)); of_bool false]
+  else
+    let '(s, tr) := run (init c outs) ops in
+    SL [enc_tr tr; of_bool (loop s)].
+
+Definition is_ok (o : outcome) : bool := match o_short o with None => negb (o_err o) | Some _ => false end.
+Definition reliable (outs : sk) : bool := forallb is_ok outs.
+
+(* the observation must be in canonical form (re-encoding the decoded trace gives it back),
+   so that nothing the oracle does not look at can differ *)
+Definition spec (i o : sx) : bool :=
+  let '(c, ops, outs) := dec_case i in
+  let tr := dec_tr (sx_nth o 0) in
+  let alive := sx_bool (sx_nth o 1) in
+  sx_eqb o (SL [enc_tr tr; of_bool alive]) &&
+  (if mode_of i then wrun [] (bops ops) tr && negb alive
+   else if reliable outs then strong_ok c ops tr alive else wrun [] ops tr).
+
+(* ------------------------------------------------------------------ *)
+(* vocabulary of the theorems in Props/C12.v (specification side; nothing here mentions
+   bufio or the implementation's state beyond the observable events) *)
+(* what the sink holds, one entry per sink write *)
+Definition recv1 (e : ev) : list bytes := match e with EW p n => [firstn n p] | ES => [] end.
+Definition received (es : list ev) : list bytes := concat (map recv1 es).
+(* the writes handed to Write, in order *)
+Definition acc1 (o : op) : list bytes := match o with Write bs => [bs] | _ => [] end.
+Definition accepted (ops : list op) : list bytes := concat (map acc1 ops).
+(* the accepted writes split into groups already in the sink (one sink write per group) and
+   the writes still buffered *)
+Definition Grp (acc sw : list bytes) (b : bytes) : Prop :=
+  exists groups rest, acc = concat groups ++ rest /\ sw = map (@concat byte) groups /\ b = concat rest.
+Definition all_evs (tr : list (res * list ev)) : list ev := concat (map snd tr).
+(* was the sink written after its last Sync? *)
+Fixpoint dirty_of (d : bool) (es : list ev) : bool :=
+  match es with [] => d | EW _ _ :: r => dirty_of true r | ES :: r => dirty_of false r end.
+(* operations after which everything accepted must be in the sink and synced *)
+Definition flushing (o : op) (alive : bool) : bool :=
+  match o with Sync | Stop => true | Tick => alive | Write _ => false end.
+(* over a reliable sink nothing fails *)
+Definition res_ok (o : op) (r : res) : Prop :=
+  match o, r with
+  | Write bs, RW n e => n = length bs /\ e = 0
+  | Sync, RS e => e = 0
+  | Tick, RT _ => True
+  | Stop, RStop e => e = 0
+  | _, _ => False
+  end.
+(* lifecycle by the documentation: the flush loop runs from the first Write to the first Stop after it *)
+Definition phase_step (p : phase) (o : op) : phase :=
+  match o, p with Write _, Fresh => Running | Stop, Running => Stopped | _, _ => p end.
+Definition spec_phase (ops : list op) : phase := fold_left phase_step ops Fresh.
+(* the bytes the Writes reported as consumed (n of every (n, err)) *)
+Definition consumed1 (x : op * (res * list ev)) : bytes :=
+  match x with (Write bs, (RW n _, _)) => firstn n bs | _ => [] end.
+Definition consumed (ops : list op) (tr : list (res * list ev)) : bytes := concat (map consumed1 (combine ops tr)).
+(* Stop has nothing left to do *)
+Definition stop_done (s : st) : Prop := inited s = false \/ stopped s = true.
